@@ -55,10 +55,17 @@ def bitmap(T, cur):
     raise ValueError(f"not assignable: {T!r}")
 
 
+def reachable_elems(T):
+    """an index of width n can only select the first 2**n elements; the others do not take part in the proxy's shape"""
+    iw = target_shape(T[1])[0] if T[1][0] != "k" else None
+    elems = list(T[2:])
+    return elems[:1 << iw] if iw is not None else elems
+
+
 def proxy_width(T):
     ws = []
     sgs = []
-    for e in T[2:]:
+    for e in reachable_elems(T):
         w, sg = target_shape(e)
         ws.append(w)
         sgs.append(sg)
@@ -73,7 +80,7 @@ def target_shape(T):
     if k == "u":
         return target_shape(T[2])[0], T[1] == "as_signed"
     if k == "arr":
-        return proxy_width(T), any(target_shape(e)[1] for e in T[2:])
+        return proxy_width(T), any(target_shape(e)[1] for e in reachable_elems(T))
     env = {i: 0 for i in R.leaves(T)}
     _, w, sg = R.ev(T, env)
     return w, sg
